@@ -215,6 +215,12 @@ def run_unit(name, repo=None, rlimit=None, outdir=None, extra_args=(), solver=No
             "rendered": d.get("rendered", ""),
         }
         res.failures.append(ob)
+    for ms in unit.missing:
+        res.failures.append({"unit": name, "fn": ms["qual"], "kind": "missing_fn", "label": "exists",
+                             "id": "%s::%s::missing_fn::exists" % (name, ms["qual"]), "tags": list(ms["props"]),
+                             "message": "the contract requires %s (%s) but %s has no such function: %s" % (ms["qual"], " :: ".join(ms["path"]), ms["file"], ms["what"]),
+                             "at": "%s:%d" % (ms["tmpl"], ms["tmpl_line"]), "exit": None, "unit_line": 0,
+                             "rendered": "obligation `%s exists` failed: no item `%s` in %s" % (ms["qual"], " :: ".join(ms["path"]), ms["file"])})
     # canary accounting: every canary must have failed
     for c in unit.canaries:
         if canary_hits.get(c["name"], 0) == 0:
